@@ -48,7 +48,7 @@ def case_strategy():
     gap = st.sampled_from([None, None, 0, 0, 0.001, 0.02, 0.3])
     size = st.sampled_from([0, 1, 5, 100, 1199, 1200, 1201, 5000, 20000, 70000])
     stream = st.fixed_dictionaries({"op": st.just("stream"), "t": st.sampled_from([0, 0, 0, 0.01, 0.2, 1.0]), "uni": st.sampled_from([False, False, False, True]), "chunks": st.lists(st.tuples(size, gap), min_size=0, max_size=4), "end": st.sampled_from(["eof", "eof", "eof", "close", "none"])})
-    other = st.fixed_dictionaries({"op": st.sampled_from(["ping", "ping", "key_update", "change_cid", "wait_connected"]), "t": st.sampled_from([0, 0, 0.01, 0.2, 1.0, 2.5])})
+    other = st.fixed_dictionaries({"op": st.sampled_from(["ping", "ping", "key_update", "change_cid", "wait_connected", "ping_cancelled", "ping_cancelled"]), "t": st.sampled_from([0, 0, 0.01, 0.2, 1.0, 2.5]), "timeout": st.sampled_from([0.0, 0.001, 0.005, 0.02, 0.3])})
     client = st.fixed_dictionaries(
         {
             "start": st.sampled_from([0, 0, 0.001, 0.05, 0.5]), "ops": st.lists(st.one_of(stream, stream, other), min_size=1, max_size=6),
@@ -216,6 +216,13 @@ def scenario(ctx, case):
                 await stream_op(ci, proto, op, k)
             elif op["op"] == "ping":
                 await tracked(rec, name, proto.ping())
+            elif op["op"] == "ping_cancelled":
+                # the application gives up waiting (asyncio.wait_for cancels the awaiting coroutine); the acknowledgement or the end of the
+                # connection arrives later and must not trip over the abandoned waiter
+                try:
+                    await asyncio.wait_for(proto.ping(), op.get("timeout", 0.001))
+                except asyncio.TimeoutError:
+                    st["cancelled_pings"] = st.get("cancelled_pings", 0) + 1
             elif op["op"] == "wait_connected":
                 if proto._connected_waiter is None:
                     await tracked(rec, name, proto.wait_connected())
@@ -319,10 +326,10 @@ def scenario(ctx, case):
         except vloop.Spin:
             starved = "spin"
             loop = None
-    sys.unraisablehook = saved_hook
+    # (the hook stays: coroutines of the scenario are collected later, after their loop was closed)
     # ------------------------------------------------------------------ verdicts
     if starved == "spin":
-        V("event-loop-spins", "the loop ran %d iterations of ready callbacks without virtual time advancing" % vloop.SPIN_LIMIT)
+        raise RuntimeError("harness: the virtual loop ran %d iterations without getting anywhere (inconclusive)" % (50 * vloop.SPIN_LIMIT))
     elif starved:
         V("event-loop-starved", "nothing was ready or scheduled although the scenario had not finished")
     n_ops = sum(len(c["ops"]) for c in case["clients"])
@@ -343,6 +350,8 @@ def scenario(ctx, case):
                 else:
                     classes.append("scn:loop-error-outside-adapter")
         classes += ["net:" + k for k in loop.net.log if k.startswith("fate:") and k != "fate:deliver"]
+        if loop.busy_loops:
+            classes.append("scn:overdue-timer-busy-loop-observed")
     for name, outcome in ([] if starved else rec.waits.items()):
         kind = name.split(".")[1].split("#")[0]
         if outcome is None:
